@@ -191,7 +191,7 @@ func runC20(c *Ctx) {
 	tStart := time.Now()
 	c.R.Rule = "columns: every n in -2..16390 plus int limits; coordinates: boundary rows x boundary cols x abs; " +
 		"strings: every string up to length L (4 quick / 5 thorough) over the alphabet {A Z a x F D 0 1 9 $ + - space : ! .}, " +
-		"long letter names (incl. 2-adic wrap witnesses), random mixed strings; paired setters/getters over all accepted spellings. " +
+		"long letter names (incl. 2-adic wrap witnesses), random mixed strings; range codecs over boundary and random corner pairs in both orders and $ forms and hostile range texts; paired setters/getters over all accepted spellings. " +
 		"non-trivial = accepted by at least one codec or of A1 shape; distinct = distinct canonical input"
 	var cases []mcase
 	// (a) columns
@@ -343,6 +343,62 @@ func runC20(c *Ctx) {
 	c.Sample(map[string]interface{}{"fn": "CellNameToCoordinates", "in": "$$A1", "impl": implCellToCoords("$$A1")})
 	c.Sample(map[string]interface{}{"fn": "CellNameToCoordinates", "in": wrap64Name + "7", "impl": implCellToCoords(wrap64Name + "7")})
 	c.Sample(map[string]interface{}{"fn": "SplitCellName", "in": "$xfd$001", "impl": implSplit("$xfd$001")})
+	// (d2) range codecs: corners over boundary columns/rows in both orders and both $ forms; hostile range texts
+	ints := func(l []int) string {
+		var ss []string
+		for _, v := range l {
+			ss = append(ss, strconv.Itoa(v))
+		}
+		return strings.Join(ss, " ")
+	}
+	implRange := func(ref string) string {
+		co, err := excelize.VerifRangeRefToCoordinates(ref)
+		cls := c20ErrClass(err)
+		if err != nil && errors.Is(err, excelize.ErrParameterInvalid) {
+			cls = 20
+		}
+		return okOrErr(ints(co), cls, err)
+	}
+	rc := []int{0, 1, 2, 26, 27, 702, 703, 16383, 16384, 16385}
+	rr := []int{0, 1, 9, 10, 1048575, 1048576, 1048577}
+	for i := 0; i < 400; i++ {
+		co := []int{rc[c.Rng.Intn(len(rc))], rr[c.Rng.Intn(len(rr))], rc[c.Rng.Intn(len(rc))], rr[c.Rng.Intn(len(rr))]}
+		if i%3 == 0 {
+			co = []int{1 + c.Rng.Intn(16384), 1 + c.Rng.Intn(1048576), 1 + c.Rng.Intn(16384), 1 + c.Rng.Intn(1048576)}
+		}
+		ab := i%2 == 0
+		ref, err := excelize.VerifCoordinatesToRangeRef(co, ab)
+		cases = append(cases, mcase{Req: fmt.Sprintf("c20.coords_to_range_ref %d %d %d %d %s", co[0], co[1], co[2], co[3], tf(ab)), Impl: okOrErr(hexb(ref), c20ErrClass(err), err), Rel: "coords_to_range_ref"})
+		sorted, _ := excelize.VerifSortCoordinates(co)
+		cases = append(cases, mcase{Req: fmt.Sprintf("c20.sort_coords %d %d %d %d", co[0], co[1], co[2], co[3]), Impl: ints(sorted), Rel: "sort_coords"})
+		c.Count("range", err == nil, fmt.Sprint(co, ab))
+		if err == nil {
+			back, err2 := excelize.VerifRangeRefToCoordinates(ref)
+			if err2 != nil || ints(back) != ints(co) {
+				c.Fail("oracle", "C20_range_roundtrip", map[string]interface{}{"coordinates": co, "abs": ab}, fmt.Sprintf("coordinatesToRangeRef(%v) = %q reads back as %v (err %v)", co, ref, back, err2), "")
+			}
+			cases = append(cases, mcase{Req: "c20.range_ref_to_coords " + hexb(ref), Impl: implRange(ref), Rel: "range_ref_to_coords"})
+		}
+		lo := func(a, b int) int {
+			if a < b {
+				return a
+			}
+			return b
+		}
+		hi := func(a, b int) int {
+			if a > b {
+				return a
+			}
+			return b
+		}
+		if want := []int{lo(co[0], co[2]), lo(co[1], co[3]), hi(co[0], co[2]), hi(co[1], co[3])}; ints(sorted) != ints(want) {
+			c.Fail("oracle", "C20_sort_coords", map[string]interface{}{"coordinates": co}, fmt.Sprintf("sortCoordinates(%v) = %v, the ordered corners are %v", co, sorted, want), "")
+		}
+	}
+	for _, ref := range []string{"", ":", "A1", "A1:", ":B2", "A1:B2:C3", "$A$1:$B$2", "a1:b2", "A1:B", "A:B", "1:2", "A1::B2", "A1:B2 ", "$$A1:B2", "A1:XFE1", "A1:A1048577", "A0:B2", "A1;B2", "Sheet1!A1:B2", "A1:B2,C3:D4", "B2:A1", "XFD1048576:A1"} {
+		cases = append(cases, mcase{Req: "c20.range_ref_to_coords " + hexb(ref), Impl: implRange(ref), Rel: "range_ref_to_coords"})
+		c.Count("range-text", false, ref)
+	}
 	t0 := time.Now()
 	c.R.Notes = append(c.R.Notes, fmt.Sprintf("gen+oracles %.1fs cases=%d", time.Since(tStart).Seconds(), len(cases)))
 	c.compareBatch(cases)
